@@ -66,14 +66,19 @@ MeasRaw(f) ==
 Pads == IF Rich THEN {"none", "atLimit", "overLimit"} ELSE {"none", "overLimit"}
 
 K(id) == 1310 + id          \* first byte of tag key number id (band L)
-TagKeyFormsCore == {"plain", "plainU", "escComma", "escSpace", "escEq", "empty", "time"}
-TagKeyFormsRich == TagKeyFormsCore \cup {"bslMid", "nonutf8", "quote", "trailBsl", "noEq"}
+TagKeyFormsCore == {"plain", "plainU", "longD", "escComma", "escSpace", "escEq", "empty", "time"}
+TagKeyFormsRich == TagKeyFormsCore \cup {"bslMid", "nonutf8", "quote", "trailBsl", "noEq", "longEsc", "longU"}
 TagKeyForms == IF Rich THEN TagKeyFormsRich ELSE TagKeyFormsCore
 TagKeyRaw(f, id) ==
   CASE f = "plain"    -> <<K(id), 1307>>
     [] f = "plainU"   -> <<K(1), 1201>>                   \* shares its first byte with the forms of key 1: with
                                                           \* "escSpace"/"escComma" of key 1 the order by escaped text
                                                           \* ('\' = 92 > 'A'..'Z') differs from the order of the keys
+    \* prefix-related keys: the plain key of key 1 followed by more bytes.  In the text the shorter key is followed
+    \* by '=' (61): comparing raw text instead of names puts "host1" (digit band < '=') before "host"
+    [] f = "longD"    -> <<K(1), 1307, 1101>>
+    [] f = "longU"    -> <<K(1), 1307, 1201>>
+    [] f = "longEsc"  -> <<K(1), 1307, BSL, EQ, 1101>>       \* "host=1": an escaped '=' right after the shared prefix
     [] f = "escComma" -> <<K(id), BSL, COMMA, 1307>>
     [] f = "escSpace" -> <<K(id), BSL, SPACE, 1307>>
     [] f = "escEq"    -> <<K(id), BSL, EQ, 1307>>
@@ -282,8 +287,13 @@ EndTags(f) == /\ ph = "tags" /\ Fits(Cost(f = "space")) /\ w' = w + Cost(f = "sp
               /\ UNCHANGED <<lead, mf, pad, tg, fl, ts, pr, s2, tl>>
 \* a field: id = which key, key form, value = [k |-> "num", n |-> Num] | [k |-> "str", f |-> form]
 FieldVals == {[k |-> "num", n |-> n] : n \in NumForms} \cup {[k |-> "str", f |-> f] : f \in StrForms}
+\* a string that is not closed swallows what follows up to the next quote: after such a field only unquoted
+\* values are generated (two of them would close each other and form ONE well-formed string - another line of
+\* the grammar, not the composition of two malformed fields)
+IsUnbal(v) == v.k = "str" /\ ~StrMeaning(v.f).ok /\ StrMeaning(v.f).reason = "unbalanced quotes"
 Field(id, kf, v) == /\ ph = "fields" /\ Len(fl) < MaxFields
                     /\ (kf = "noEq" => v = [k |-> "num", n |-> DefaultNum])
+                    /\ ((\E i \in 1..Len(fl) : IsUnbal(fl[i].v)) => (v.k = "num" /\ kf # "quote"))
                     /\ LET c == Cost(id = Len(fl) + 1) + Cost(kf = "plain") + Cost(v = [k |-> "num", n |-> DefaultNum])
                        IN Fits(c) /\ w' = w + c
                     /\ fl' = Append(fl, [id |-> id, kf |-> kf, v |-> v])
